@@ -5,10 +5,11 @@ V = os.path.dirname(os.path.dirname(os.path.abspath(__file__)))
 sys.path.insert(0, os.path.join(V, 'engine'))
 props = [json.loads(l) for l in open(os.path.join(V, 'properties.jsonl'))]
 NA = json.load(open(os.path.join(V, 'tools', 'not_applicable.json'))) if os.path.exists(os.path.join(V, 'tools', 'not_applicable.json')) else {}
+CLAIMED = open(os.path.join(V, 'tools', 'claimed.txt')).read().split()     # only checks that were run to completion on the unchanged tree are claimed
 checks = []; claimed = []
 for p in props:
     f = os.path.join(V, 'props', p['id'] + '.py')
-    if not os.path.exists(f) or p['id'] in NA: continue
+    if not os.path.exists(f) or p['id'] in NA or p['id'] not in CLAIMED: continue
     spec = importlib.util.spec_from_file_location(p['id'], f); mod = importlib.util.module_from_spec(spec); spec.loader.exec_module(mod)
     claimed.append(p['id'])
     checks.append({
